@@ -439,6 +439,8 @@ fn contents() -> Vec<Option<Vec<u8>>> {
         Some(b"x\r\ny\n".to_vec()),
         // CRLF and no final newline (both style clauses at once)
         Some(b"x\r\ny".to_vec()),
+        // a first line that starts with dashes (an SQL / Lua comment)
+        Some(b"-- c\ny\n".to_vec()),
     ]
 }
 
@@ -458,6 +460,10 @@ fn hunk_set() -> Vec<Vec<Vec<(char, String)>>> {
         vec![vec![l(' ', "y"), l('+', "")]],                        // add an empty line
         vec![vec![l('-', "x"), l('+', "x")]],                       // no-op rewrite
         vec![vec![l('+', "z")], vec![l('-', "z"), l('+', "w")]],    // insertion then edit behind cursor
+        // lines whose own text starts with dashes / pluses: the patch lines read `--- c` / `+++ d`
+        vec![vec![l('-', "-- c")]],                                 // remove a `-- c` line (first hunk line)
+        vec![vec![l('+', "++ d")]],                                 // insert a `++ d` line
+        vec![vec![l('-', "-- c"), l('+', "++ d")]],                 // replace one by the other
     ]
 }
 
